@@ -38,20 +38,38 @@ def main():
         except Exception as e:
             meta = {"author_meta_unreadable": str(e)}
     res = {"property": prop, "author": meta, "verified": {}, "checks": {}}
-    env = dict(os.environ, CARGO_NET_OFFLINE="true")
+    env = dict(os.environ, CARGO_NET_OFFLINE="true", CARGO_TARGET_DIR="/tmp/seedchk/suite-target")
+    # --- 0. a private scratch worktree: pinned tree + the author's patch (+ the demonstration)
+    # (git stash is shared between worktrees of one repository, so it is never used here)
+    src_wt = wt
+    wt = os.path.join("/tmp/seedchk", name)
+    os.makedirs("/tmp/seedchk", exist_ok=True)
+    sh("git -C /repo worktree remove --force %s" % wt)
+    rc, o = sh("git -C /repo worktree add -q --detach %s HEAD" % wt)
+    if rc != 0:
+        print(o)
+        sys.exit(2)
+    patch = os.path.join(out, "patch.diff")
+    rc, o = sh("git apply --index %s" % patch, cwd=wt)
+    if rc != 0:
+        print("patch does not apply: " + o)
+        sys.exit(2)
+    demo = os.path.join(out, "seeded_demo.rs")
+    if os.path.exists(demo):
+        shutil.copy(demo, os.path.join(wt, "tests", "seeded_demo.rs"))
     # --- 1. claims
-    rc, o = sh("git diff --stat -- src | tail -1", cwd=wt)
+    rc, o = sh("git diff --cached --stat -- src | tail -1", cwd=wt)
     res["verified"]["diffstat"] = o.strip()
     rc, o = sh("cargo nextest run --workspace --no-fail-fast --offline --test-threads 8 -E 'not binary(seeded_demo)' 2>&1 | tail -3", cwd=wt, env=env)
     res["verified"]["suite_with_change"] = o.strip().splitlines()[-1] if o.strip() else ""
     suite_ok = "164 passed" in o and "failed" not in o.split("Summary")[-1]
     rc1, o1 = sh("cargo test --offline --test seeded_demo 2>&1 | tail -15", cwd=wt, env=env)
     demo_fails = rc1 != 0 or "FAILED" in o1 or "failed" in o1
-    sh("git stash push -q -- src", cwd=wt)
+    sh("git apply -R --index %s" % patch, cwd=wt)
     try:
         rc2, o2 = sh("cargo test --offline --test seeded_demo 2>&1 | tail -5", cwd=wt, env=env)
     finally:
-        sh("git stash pop -q", cwd=wt)
+        sh("git apply --index %s" % patch, cwd=wt)
     demo_passes = "test result: ok" in o2 and "FAILED" not in o2
     res["verified"].update({"suite_passes_with_change": suite_ok, "demo_fails_with_change": demo_fails, "demo_passes_without_change": demo_passes, "demo_output_with_change": o1[-800:]})
     print("[seedtest] %s: suite_ok=%s demo_fails=%s demo_passes_without=%s" % (name, suite_ok, demo_fails, demo_passes), flush=True)
@@ -83,17 +101,18 @@ def main():
     for f in ("patch.diff", "seeded_demo.rs"):
         if os.path.exists(os.path.join(out, f)):
             shutil.copy(os.path.join(out, f), os.path.join(dest, f))
-    rc, o = sh("git diff -- src", cwd=wt)
-    open(os.path.join(dest, "patch.diff"), "w").write(o)
+    shutil.copy(patch, os.path.join(dest, "patch.diff"))
     res["what_was_run"] = [
-        "cargo nextest run --workspace --no-fail-fast --offline --test-threads 8 -E 'not binary(seeded_demo)'  (in the scratch worktree, change applied)",
-        "cargo test --offline --test seeded_demo  (with the change: must fail; with `git stash -- src`: must pass)",
+        "cargo nextest run --workspace --no-fail-fast --offline --test-threads 8 -E 'not binary(seeded_demo)'  (in a fresh scratch worktree of /repo's HEAD with patch.diff applied)",
+        "cargo test --offline --test seeded_demo  (with the change: must fail; with the patch reversed (git apply -R): must pass)",
         "VMON_REPO=<worktree> ./check <property> %s  (harness rebuilt against the changed tree)" % tier,
     ]
     res["needs"] = meta.get("needs")
     res["summary"] = meta.get("summary")
     json.dump(res, open(os.path.join(dest, "meta.json"), "w"), indent=1)
     print("[seedtest] %s: caught_by=%s" % (name, res["caught_by"]))
+    # remove the scratch worktree with its build output
+    sh("git -C /repo worktree remove --force %s" % wt)
 
 
 if __name__ == "__main__":
